@@ -103,7 +103,7 @@ func genC20(rec *lib.Rec, r *lib.Rng, thorough bool) {
 		if zi, zv := zvecValue(40); zv != nil {
 			hn := 3000
 			if thorough {
-				hn = 200000
+				hn = 60000
 			}
 			rec.Op("S", "text history "+strconv.Itoa(hn)+" "+strconv.Itoa(zi)+" 1 "+valStr(zv), true)
 			rec.Count("history-long")
